@@ -121,6 +121,55 @@ func (f *FProtocol) ReadStructBegin(ctx context.Context) (string, error) {
 	return f.TProtocol.ReadStructBegin(ctx)
 }
 
+// checkContainerSize refuses a list, set or map that announces more elements
+// than bytes remain to be read. Generated Read methods allocate room for the
+// announced size before reading the first element. The binary and compact
+// protocols read straight from their transport and every element occupies at
+// least one byte, so such a container cannot be complete.
+func (f *FProtocol) checkContainerSize(size int) error {
+	switch f.TProtocol.(type) {
+	case *thrift.TBinaryProtocol, *thrift.TCompactProtocol:
+	default:
+		return nil
+	}
+	remaining := f.Transport().RemainingBytes()
+	if remaining == ^uint64(0) || uint64(size) <= remaining {
+		return nil
+	}
+	return thrift.NewTProtocolExceptionWithType(thrift.SIZE_LIMIT,
+		fmt.Errorf("frugal: container of %d elements announced with %d bytes remaining", size, remaining))
+}
+
+// ReadListBegin reads the header of a list and checks the announced size
+// against what is left of the message.
+func (f *FProtocol) ReadListBegin(ctx context.Context) (thrift.TType, int, error) {
+	elemType, size, err := f.TProtocol.ReadListBegin(ctx)
+	if err == nil {
+		err = f.checkContainerSize(size)
+	}
+	return elemType, size, err
+}
+
+// ReadSetBegin reads the header of a set and checks the announced size
+// against what is left of the message.
+func (f *FProtocol) ReadSetBegin(ctx context.Context) (thrift.TType, int, error) {
+	elemType, size, err := f.TProtocol.ReadSetBegin(ctx)
+	if err == nil {
+		err = f.checkContainerSize(size)
+	}
+	return elemType, size, err
+}
+
+// ReadMapBegin reads the header of a map and checks the announced size
+// against what is left of the message.
+func (f *FProtocol) ReadMapBegin(ctx context.Context) (thrift.TType, thrift.TType, int, error) {
+	keyType, valueType, size, err := f.TProtocol.ReadMapBegin(ctx)
+	if err == nil {
+		err = f.checkContainerSize(size)
+	}
+	return keyType, valueType, size, err
+}
+
 // ReadStructEnd leaves the struct entered by the matching ReadStructBegin.
 func (f *FProtocol) ReadStructEnd(ctx context.Context) error {
 	if f.readDepth > 0 {
